@@ -138,7 +138,7 @@ func runC09(c *Ctx) {
 		maxPat, maxPath = 4, 5
 	}
 	c.Exhaustive = true
-	c.Rule = fmt.Sprintf("all patterns of the segment grammar (literal | placeholder | trailing /*) with <= %d segments over {a, b, empty, id, x} x all paths with <= %d segments over {a, b, 1, empty} (plus query strings for keyMatch5), for keyMatch2/3/4/5 and keyGet2/3 (after regexMatch has been called on every pattern text and on its regex translation: the answers must not depend on what was called before), against the Lean model (rendered pattern text) and the Lean segment semantics (bounded-exhaustive); raw pattern strings over {/ a : { } * ? .} for the boundary of the modelled regex fragment; keyMatch/keyGet over all short strings; random IPv4 and IPv6 addresses/CIDRs incl. boundary prefix lengths and malformed text; every call is also made through the function registered under the built-in's name in model.LoadFunctionMap() (what a matcher calls) and must give the same answer; IPv6 on the implementation only: every address against four spellings of a second address (as given, upper case, all groups written out, leading zeros), as a single address and as its /128, against net.IP equality; non-trivial = a pattern with a placeholder or wildcard on which some path matches and some does not; distinct = (function, pattern)", maxPat, maxPath)
+	c.Rule = fmt.Sprintf("all patterns of the segment grammar (literal | placeholder | trailing /*) with <= %d segments over {a, b, empty, id, x} x all paths with <= %d segments over {a, b, 1, empty} (plus query strings for keyMatch5), for keyMatch2/3/4/5 and keyGet2/3 (after regexMatch has been called on every pattern text and on its regex translation: the answers must not depend on what was called before), against the Lean model (rendered pattern text) and the Lean segment semantics (bounded-exhaustive); raw pattern strings over {/ a : { } * ? .} for the boundary of the modelled regex fragment; keyMatch/keyGet over all short strings; random IPv4 and IPv6 addresses/CIDRs incl. boundary prefix lengths and malformed text; every call is also made through the function registered under the built-in's name in model.LoadFunctionMap() (what a matcher calls) and must give the same answer; IPv6 on the implementation only: every address against four spellings of a second address (as given, upper case, all groups written out, leading zeros), as a single address and as its /128, against net.IP equality; every IPv4 address also in its IPv4-mapped spelling (::ffff:a.b.c.d) and every IPv4 prefix as the mapped /96+n prefix: same answers; non-trivial = a pattern with a placeholder or wildcard on which some path matches and some does not; distinct = (function, pattern)", maxPat, maxPath)
 	segAlpha := []pseg{{false, "a"}, {false, "b"}, {false, ""}, {true, "id"}, {true, "x"}}
 	var patterns [][]pseg
 	var recP func(cur []pseg)
@@ -348,6 +348,23 @@ func runC09(c *Ctx) {
 					c.Count("ipv6_spelling_checks", 1)
 				}
 			}
+		}
+		// an IPv4 address written as an IPv4-mapped IPv6 address is the same address: it matches exactly what its
+		// dotted form matches (single addresses, every prefix length, mapped patterns)
+		if pa := net.ParseIP(a); pa != nil && pa.To4() != nil && !strings.Contains(a, ":") {
+			plain := obsBool(func() bool { return util.IPMatch(a, b) })
+			mapped := obsBool(func() bool { return util.IPMatch("::ffff:"+a, b) })
+			if plain != mapped {
+				c.Direct("ipMatch answers differently for an IPv4 address and its IPv4-mapped spelling", fmt.Sprintf("ipMatch(%q, %q) = %s, ipMatch(%q, %q) = %s", a, b, plain, "::ffff:"+a, b, mapped))
+			}
+			if ip, n, err := net.ParseCIDR(b); err == nil && ip.To4() != nil && !strings.Contains(b, ":") {
+				ones, _ := n.Mask.Size()
+				mb := fmt.Sprintf("::ffff:%s/%d", ip.String(), 96+ones)
+				if viaMapped := obsBool(func() bool { return util.IPMatch(a, mb) }); viaMapped != plain {
+					c.Direct("ipMatch answers differently for an IPv4 prefix and its IPv4-mapped spelling", fmt.Sprintf("ipMatch(%q, %q) = %s, ipMatch(%q, %q) = %s", a, b, plain, a, mb, viaMapped))
+				}
+			}
+			c.Count("ipv4_mapped_checks", 1)
 		}
 		obs := obsBool(func() bool { return util.IPMatch(a, b) })
 		viaFunctionMap("ipMatch", obs, a, b)
